@@ -96,5 +96,6 @@ Fixpoint tunnel_run (c : cfg) (s : hstate) (evs : list event) : hstate * res :=
                end
   end.
 
-(* shutdown(): upstream.close(); then the base class *)
-Definition tunnel_shutdown (s : hstate) : hstate := close_upstream (set_work (close (work s)) s).
+(* shutdown(): upstream.close(); super().shutdown() is Work.shutdown(), which only publishes an event:
+   the client socket is NOT closed by this class (left to the garbage collector). *)
+Definition tunnel_shutdown (s : hstate) : hstate := close_upstream s.
